@@ -2,7 +2,7 @@
 from sa import pat as P
 from sa.cfg import cfg
 from sa.expr import ex, show, walk, cond_exprs, const_val
-from sa.util import table, fmt_conds, describe_table, local_by_name, glob_any, the_closure, return_blocks
+from sa.util import table, fmt_conds, describe_table, glob_any, the_closure, return_blocks
 
 EXPLANATION = (
     "Decides structurally: R1 disjoint partition — a response is the stable part followed by the unstable part, and the "
@@ -51,7 +51,7 @@ def run(ctx):
                 rng = e.operand(c.args[1])
                 why = 'the stable store is read for %s' % show(rng)[:200]
                 SH = P.either(P.call(ST + 'GenericState::stable_height', P.anything), P.call('ic_btc_canister::utxo_set::UtxoSet::next_height', P.anything))
-                last_stable = P.either(P.binop('Sub', SH, P.const(1)), P.has(P.downcast('Some', P.call('core::num::checked_sub', SH, P.const(1)))), P.named('last_stable_height'),
+                last_stable = P.either(P.binop('Sub', SH, P.const(1)), P.has(P.downcast('Some', P.call('core::num::checked_sub', SH, P.const(1)))), 
                                        P.call('core::num::saturating_sub', SH, P.const(1)))
                 if P.call('core::ops::range::RangeInclusive::new', P.anything, P.anything)(rng):
                     end = rng[2][1]
@@ -89,7 +89,7 @@ def run(ctx):
         ctx.check(len(e1) == 1 and len(e2) == 1 and len(e3) == 1 and len(ok) == 1 and len(rows) == 4 and chain_is_main, 'R3', 'error-table', v,
                   'start > tip -> StartHeightDoesNotExist; end < start -> StartHeightLargerThanEndHeight; end > tip -> EndHeightDoesNotExist; tip = main_chain_height',
                   'range check table: %s' % describe_table(rows))
-        eff = [x for l in local_by_name(v, 'effective_end_height') for x in table(prog, v, l)]
+        eff = [x for l in range(len(v.locals)) for x in table(prog, v, l)]
         want = P.call('min', P.anything, P.binop('Sub', P.binop('Add', P.anything, P.item('MAX_BLOCK_HEADERS_PER_RESPONSE', 100)), P.const(1)))
         okeff = any(want(x[1]) for x in eff)
         ctx.check(okeff, 'R2', 'effective-end', v, 'effective end = min(end or tip, start + 100 - 1)', 'effective end: %s' % describe_table(eff))
@@ -128,7 +128,7 @@ def run(ctx):
         # order: stable part first, unstable appended
         g = cfg(f)
         app = [(k, c) for k in [f] + prog.descendants(f) for c in k.calls() if not c.cleanup and c.matches('alloc::vec::Vec::append')]
-        ok = len(app) == 1 and P.has(P.either(P.upvar('vec_headers'), P.named('vec_headers')))(ex(prog, app[0][0]).operand(app[0][1].args[0]))
+        ok = len(app) == 1 and P.has(P.either(P.upvar(), P.var()))(ex(prog, app[0][0]).operand(app[0][1].args[0]))
         ctx.check(ok, 'R4', 'stable-then-unstable', app[0][1] if app else f, 'the unstable headers are appended after the stable ones', 'append order not recognised')
         # the unstable accessor receives stable_height and the same (start, end)
         ua = [(k, c) for k in prog.descendants(f) for c in k.calls_to(UB + 'GenericUnstableBlocks::get_block_headers_in_range') if not c.cleanup]
@@ -136,7 +136,7 @@ def run(ctx):
         if len(ua) == 1:
             k, c = ua[0]
             ek = ex(prog, k)
-            ok = P.call(ST + 'GenericState::stable_height', P.anything)(ek.operand(c.args[1])) and P.call('core::ops::range::RangeInclusive::new', P.has(P.either(P.upvar('start_height'), P.named('start_height'))), P.has(P.either(P.upvar('end_height'), P.named('end_height'))))(ek.operand(c.args[2]))
+            ok = P.call(ST + 'GenericState::stable_height', P.anything)(ek.operand(c.args[1])) and P.call('core::ops::range::RangeInclusive::new', P.has(P.either(P.upvar(), P.var(), P.field('0', P.anything))), P.has(P.either(P.upvar(), P.var(), P.field('1', P.anything))))(ek.operand(c.args[2]))
         ctx.check(ok, 'R4', 'unstable-inputs', ua[0][1] if ua else f, 'the unstable part is asked for (stable_height, start..=end)', 'unstable accessor inputs not recognised')
     # ---------------- R5 ------------------------------------------------------------------------
     fbs = prog.find('<ic_btc_canister::types::BlockHeaderBlob as core::convert::From>::from')
